@@ -163,6 +163,8 @@ class Setup:
         manager.config.configHydrodynamics.absoluteTol = tols["hydroAtol"]
         manager.registerModel(self.model)
         self.manager = manager
+        # purity: no call may change the user's configuration object
+        self.config0 = flat(manager.config, "config")
         return manager
 
     def setup(self, u, reuse_manager=False):
@@ -172,12 +174,49 @@ class Setup:
         self.present(u)
         manager = self.manager if (reuse_manager and self.manager is not None) \
             else self.new_manager()
-        manager.setupThermodynamicsHydrodynamics(
-            WallGo.PhaseInfo(temperature=spec["Tn"] * u, phaseLocation1=Fields([self.ph1]),
-                             phaseLocation2=Fields([self.ph2])),
-            WallGo.VeffDerivativeSettings(temperatureVariationScale=spec["dTscale"] * u,
-                                          fieldValueVariationScale=[spec["phiscale"] * u]))
+        phaseInfo = WallGo.PhaseInfo(temperature=spec["Tn"] * u,
+                                     phaseLocation1=Fields([self.ph1]),
+                                     phaseLocation2=Fields([self.ph2]))
+        scales = WallGo.VeffDerivativeSettings(
+            temperatureVariationScale=spec["dTscale"] * u,
+            fieldValueVariationScale=[spec["phiscale"] * u])
+        b1, b2 = flat(phaseInfo, "phaseInfo"), flat(scales, "veffDerivativeScales")
+        manager.setupThermodynamicsHydrodynamics(phaseInfo, scales)
+        self.input_mutations = mutated(b1, phaseInfo, "phaseInfo") + \
+            mutated(b2, scales, "veffDerivativeScales")
         return manager
+
+
+def flat(obj, prefix=""):
+    """flatten a configuration / settings object (dataclasses, lists, tuples, dicts, numpy
+    arrays, Fields) into {dotted field name: plain value} for comparison"""
+    import dataclasses
+    out = {}
+    if dataclasses.is_dataclass(obj) and not isinstance(obj, type):
+        for f in dataclasses.fields(obj):
+            out.update(flat(getattr(obj, f.name), prefix + "." + f.name if prefix else f.name))
+    elif isinstance(obj, dict):
+        for k in obj:
+            out.update(flat(obj[k], "%s[%r]" % (prefix, k)))
+    elif isinstance(obj, np.ndarray):
+        out[prefix] = np.asarray(obj, dtype=float).reshape(-1).tolist() \
+            if obj.dtype.kind in "fiub" else repr(obj)
+    elif isinstance(obj, (list, tuple)):
+        for i, v in enumerate(obj):
+            out.update(flat(v, "%s[%d]" % (prefix, i)))
+        out[prefix + ".len"] = len(obj)
+    elif isinstance(obj, (int, float, str, bool)) or obj is None:
+        out[prefix] = obj
+    else:
+        out[prefix] = repr(obj)
+    return out
+
+
+def mutated(before, obj, label):
+    """fields of an INPUT object (flattened snapshot `before`) changed by the calls made"""
+    after = flat(obj, label)
+    return ["%s: %r -> %r" % (k, before.get(k), after.get(k))
+            for k in sorted(set(before) | set(after)) if before.get(k) != after.get(k)]
 
 
 def uninterpolated(pot, manager, Tn):
@@ -244,19 +283,37 @@ def solve_case(job):
                 bIncludeOffEquilibrium=False,
                 meanFreePathScale=spec["meanFreePathScale"],
                 wallThicknessGuess=spec["wallThicknessGuess"])
-            res = manager.solveWall(settings)
-            if res.wallVelocity is None:
-                raise RuntimeError("solveWall returned no wall velocity (message: %s)" % (
-                    getattr(res, "message", None),))
-            out.update(success=bool(res.success), vw=float(res.wallVelocity),
-                       vwLTEres=float(res.wallVelocityLTE),
-                       width=float(res.wallWidths[0]),
-                       offset=float(res.wallOffsets[0]),
-                       Tplus=float(res.temperaturePlus), Tminus=float(res.temperatureMinus),
-                       vwErr=float(res.wallVelocityError or 0.0))
+            s0 = flat(settings, "wallSolverSettings")
+
+            def wall(tag):
+                res = manager.solveWall(settings)
+                if res.wallVelocity is None:
+                    raise RuntimeError("solveWall returned no wall velocity (message: %s)" % (
+                        getattr(res, "message", None),))
+                out.update({"success" + tag: bool(res.success),
+                            "vw" + tag: float(res.wallVelocity),
+                            "vwLTEres" + tag: float(res.wallVelocityLTE),
+                            "width" + tag: float(res.wallWidths[0]),
+                            "offset" + tag: float(res.wallOffsets[0]),
+                            "Tplus" + tag: float(res.temperaturePlus),
+                            "Tminus" + tag: float(res.temperatureMinus)})
+            wall("")
+            if "wall2" in stages:
+                # history: the same call again on the same manager must give the same answer
+                try:
+                    wall("2")
+                except Exception as ex:
+                    out["raised2"] = "%s: %s" % (type(ex).__name__, str(ex)[:200])
+            st.input_mutations += mutated(s0, settings, "wallSolverSettings")
+        out["mutated"] = mutated(st.config0, manager.config, "config") + st.input_mutations
     except Exception as ex:          # a run that raises is itself an output to compare
         out["raised"] = "%s: %s" % (type(ex).__name__, str(ex)[:200])
         out["trace"] = traceback.format_exc()[-1500:]
+        try:
+            out["mutated"] = mutated(st.config0, st.manager.config, "config") + \
+                getattr(st, "input_mutations", [])
+        except Exception:
+            pass
     out["seconds"] = round(time.time() - t0, 1)
     return out
 
@@ -270,9 +327,9 @@ MODELS["quarticwide"] = dict(kind="quartic1", Tn=1.8, D=0.2, E=0.12, lam=0.1, T0
 JOUGUET_INSIDE = {"yukawa": False, "yukawa4": False, "quarticwide": True}
 
 # quantity -> (mass dimension, kind of tolerance)
-DIMLESS = ["vw", "vwLTE", "vJ", "alphaN", "alpha", "csqHigh", "csqLow", "vMin", "offset",
+DIMLESS = ["vw2", "offset2", "vw", "vwLTE", "vJ", "alphaN", "alpha", "csqHigh", "csqLow", "vMin", "offset",
            "muMinLowT", "csqLowExt"]
-DIMFUL = {"width": -1, "Tplus": 1, "Tminus": 1, "pHigh": 4, "pLow": 4, "dpHigh": 3,
+DIMFUL = {"width2": -1, "Tplus2": 1, "Tminus2": 1, "width": -1, "Tplus": 1, "Tminus": 1, "pHigh": 4, "pLow": 4, "dpHigh": 3,
           "ddpLow": 2, "eHigh": 4, "wLow": 4, "TMinLowT": 1, "TMinHighT": 1, "pLowExt": 4,
           "TMaxHighT": 1, "TMaxLowT": 1,
           # the finite-difference / tracer scales actually in use by the potential
@@ -283,6 +340,8 @@ def tolerance_for(q, tols):
     """tolerances derived from the configuration of the run (relative unless noted)"""
     eT, pT, hR = tols["errTol"], tols["phaseTracerTol"], tols["hydroRtol"]
     eos = max(1e3 * pT, 100 * hR)
+    if q.endswith("2") and q[:-1] in ("vw", "offset", "width", "Tplus", "Tminus"):
+        q = q[:-1]               # second call on the same manager: same tolerances
     if q == "vw":
         return 3 * eT            # absolute: root_scalar(xtol=errTol) in both runs + pressure tol
     if q in ("Tplus", "Tminus"):
@@ -388,7 +447,8 @@ def compare_runs(ctx, ref, run, tols, tolname):
         d = DIMFUL.get(q, 0)
         a, b = ref[q], run[q] / lam ** d
         tol = tolerance_for(q, tols)
-        dev = abs(a - b) if q in ("vw", "offset") else abs(a - b) / max(abs(a), 1e-300)
+        dev = abs(a - b) if q in ("vw", "offset", "vw2", "offset2") else \
+            abs(a - b) / max(abs(a), 1e-300)
         ctx.count("metamorphic_compare", bucket=q)
         if not dev <= tol:
             bad.append(q)
@@ -847,7 +907,7 @@ def run(ctx):
         ctx.broken.append("harness: formula checks raised %r" % ex)
     # metamorphic end-to-end runs
     search = bool(ctx.broken) or sites_changed
-    W, H = ("lte", "wall"), ()
+    W, H = ("lte", "wall", "wall2"), ()
     # the recorded input of known finding site:findLocalMinimum-absolute-step
     # (findings/C07_findLocalMinimum_units.json) is replayed first in every tier
     RECORDED = ("yukawa4", "default", [100.0], H)
@@ -886,6 +946,45 @@ def run(ctx):
     ctx.log("metamorphic runs: %d solves in %.0fs" % (len(jobs), time.time() - t0))
     byk = {(r["model"], r["tols"], r["unit"], tuple(r["history"]), r["mode"]): r
            for r in results}
+    # purity and call-history checks on every run (no extra managers are built)
+    for r in results:
+        tag = "%s [%s] units x%g%s" % (
+            r["model"], r["tols"], r["unit"],
+            " (after set-ups in units %s, same %s)" % (
+                ",".join("x%g" % h for h in r["history"]), r["mode"]) if r["history"] else "")
+        rep = dict(kind="metamorphic", model=r["model"], tols=r["tols"], history=r["history"],
+                   mode=r["mode"], units=[r["unit"], r["unit"]])
+        ctx.count("purity_checked_runs")
+        for mfield in r.get("mutated", []):
+            name = re.sub(r"\[\d+\]$|\.len$", "", mfield.split(":")[0])
+            ctx.fail_input(
+                "%s: an INPUT object was modified by setupThermodynamicsHydrodynamics / "
+                "wallSpeedLTE / solveWall: %s (a second call on the same manager or config "
+                "starts from different inputs)" % (tag, mfield),
+                dict(rep, quantity="purity", mutated=r["mutated"]), key="purity:" + name)
+        if "vw" in r and ("vw2" in r or "raised2" in r):
+            ctx.count("second_call_runs")
+            if "raised2" in r:
+                ctx.fail_input(
+                    "%s: the second solveWall call on the same manager fails (%s) while the "
+                    "first gave vw=%.6g" % (tag, r["raised2"], r["vw"]),
+                    dict(rep, quantity="second-call", raised2=r["raised2"]),
+                    key="history:second-call:raises")
+                continue
+            for q in ("vw", "width", "Tplus", "Tminus", "offset"):
+                a, b = r[q], r[q + "2"]
+                tol = tolerance_for(q, TOLSETS[r["tols"]])
+                dev = abs(a - b) if q in ("vw", "offset") else abs(a - b) / max(abs(a), 1e-300)
+                if not dev <= tol:
+                    ctx.fail_input(
+                        "%s: the second solveWall call on the same manager gives %s = %.10g, "
+                        "the first gave %.10g (deviation %.3g > %.3g)" % (tag, q, b, a, dev, tol),
+                        dict(rep, quantity="second-call:" + q, first=a, second=b),
+                        key="history:second-call:" + q)
+            if r["success"] != r["success2"]:
+                ctx.fail_input("%s: success flag of the second solveWall call differs" % tag,
+                               dict(rep, quantity="second-call:success"),
+                               key="history:second-call:success")
     for m, t, units, stages in plan:
         ref = byk[(m, t, 1.0, (), "model")]
         if "raised" in ref:
@@ -931,7 +1030,7 @@ def replay(rep):
     print(json.dumps({k: v for k, v in rep.items() if k != "trace"}, indent=1))
     if rep.get("kind") == "metamorphic":
         u0, u1 = rep["units"]
-        st = () if rep.get("history") else ("lte", "wall")
+        st = () if rep.get("history") else ("lte", "wall", "wall2")
         a = solve_case((rep["model"], u0, rep["tols"], st))
         b = solve_case((rep["model"], u1, rep["tols"], st, tuple(rep.get("history", [])),
                         rep.get("mode", "model")))
@@ -941,4 +1040,6 @@ def replay(rep):
                 print("%-12s %-18.10g %-18.10g (dimension %d)" % (
                     q, a[q], b[q] / (u1 / u0) ** d, d))
         print("raised:", a.get("raised"), "|", b.get("raised"))
+        print("second call failed:", a.get("raised2"), "|", b.get("raised2"))
+        print("input objects mutated:", a.get("mutated"), "|", b.get("mutated"))
     return 0
